@@ -300,4 +300,5 @@ def imex_euler_matrix(EX, IM, dt):
 
 
 def fix_sim_time(t, dt):
-  return dt * np.round(np.asarray(t) / dt)
+  """nearest integer multiple of dt, in the arithmetic of the operands' dtype."""
+  return dt * np.round(t / dt)
